@@ -14,7 +14,17 @@
 static int nfail = 0;
 #define FAIL(key, ...) do { if (nfail++ < 20) { printf("FAIL %s ", key); printf(__VA_ARGS__); printf("\n"); fflush(stdout); } } while (0)
 #ifdef MI_VERIF_HOOKS
-void verif_log(int kind, const volatile void* addr, unsigned long long a, unsigned long long b, int ok) { (void)kind; (void)addr; (void)a; (void)b; (void)ok; }
+// trace of every atomic operation on the arena's blocks_inuse fields (validated against Model.BitmapC by `midriver c14c`)
+static volatile void* INUSE = NULL; static size_t INUSE_FIELDS = 0; static int TRACE = 0;
+void verif_log(int kind, const volatile void* addr, unsigned long long a, unsigned long long b, int ok) {
+  if (!TRACE || INUSE == NULL || vs_tid < 0) return;
+  if ((uintptr_t)addr < (uintptr_t)INUSE || (uintptr_t)addr >= (uintptr_t)INUSE + INUSE_FIELDS * sizeof(size_t)) return;
+  size_t f = ((uintptr_t)addr - (uintptr_t)INUSE) / sizeof(size_t);
+  if (kind == 1 || kind == 2) printf("T %d C %zu %llx %llx %d\n", vs_tid, f, a, b, ok);
+  else if (kind == 4) printf("T %d S %zu %llx\n", vs_tid, f, a);
+  else if (kind == 7) printf("T %d A %zu %llx %llx\n", vs_tid, f, a, b);
+  else if (kind == 8) printf("T %d O %zu %llx %llx\n", vs_tid, f, a, b);
+}
 #define RND() vs_rnd()
 #else
 static uint64_t rs = 88172645463325252ULL;
@@ -67,7 +77,9 @@ static void body(int tid) {
       int i; for (i = 0; i < NREG; i++) if (regs[i].state == 0) break; if (i == NREG) continue;
       regs[i].state = 3;
       size_t blocks = 1 + (size_t)(vs_rnd() % 5); size_t size = blocks * MI_ARENA_BLOCK_SIZE;
+      if (TRACE) printf("T %d B claim %zu\n", tid, blocks);
       mi_memid_t memid; uint8_t* p = (uint8_t*)_mi_arena_alloc_aligned(size, MI_SEGMENT_ALIGN, 0, false, false, AID, &memid);
+      if (TRACE) { if (p) printf("T %d X claim %zu %zu\n", tid, blocks, (size_t)(p - ASTART) / MI_ARENA_BLOCK_SIZE); else printf("T %d X claim %zu -1\n", tid, blocks); }
       if (p == NULL) { n_fail++; regs[i].state = 0; continue; }
       n_alloc++;
       if (p < ASTART || p + size > ASTART + ASIZE) FAIL("claim_outside_arena", "t%d got [%p,+%zu) outside the arena [%p,+%zu)", tid, (void*)p, size, (void*)ASTART, ASIZE);
@@ -78,7 +90,40 @@ static void body(int tid) {
     } else if (op < 95) {
       int start = (int)(vs_rnd() % NREG);
       for (int k = 0; k < NREG; k++) { int i = (start + k) % NREG; if (regs[i].state == 1) { regs[i].state = 3; n_free++;
-          _mi_arena_free(regs[i].p, regs[i].blocks * MI_ARENA_BLOCK_SIZE, 0, regs[i].memid); regs[i].state = 0; break; } }
+          if (TRACE) printf("T %d B free %zu %zu\n", tid, (size_t)(regs[i].p - ASTART) / MI_ARENA_BLOCK_SIZE, regs[i].blocks);
+          _mi_arena_free(regs[i].p, regs[i].blocks * MI_ARENA_BLOCK_SIZE, 0, regs[i].memid);
+          if (TRACE) printf("T %d X free\n", tid);
+          regs[i].state = 0; break; } }
+    } else vs_yield();
+  }
+}
+// the same protocol on a private 3-field bitmap with claims of up to 130 bits: exercises intermediate fields (CAS 0 -> all ones) and
+// their roll-back by a plain store of 0 when a later field cannot be claimed
+static _Atomic(size_t) PBM[3];
+static struct { size_t idx, count; int state; } pregs[NREG];
+static void body_bm(int tid) {
+  for (int r = 0; r < OPS; r++) {
+    unsigned op = (unsigned)(vs_rnd() % 100);
+    if (op < 55) {
+      int i; for (i = 0; i < NREG; i++) if (pregs[i].state == 0) break; if (i == NREG) continue;
+      pregs[i].state = 3;
+      size_t count = (vs_rnd() % 3 == 0) ? 60 + (size_t)(vs_rnd() % 70) : 1 + (size_t)(vs_rnd() % 40);
+      mi_bitmap_index_t bi = 0;
+      if (TRACE) printf("T %d B claim %zu\n", tid, count);
+      bool ok = _mi_bitmap_try_find_from_claim_across((mi_bitmap_t)PBM, 3, (size_t)(vs_rnd() % 3), count, &bi);
+      if (TRACE) { if (ok) printf("T %d X claim %zu %zu\n", tid, count, (size_t)bi); else printf("T %d X claim %zu -1\n", tid, count); }
+      if (!ok) { n_fail++; pregs[i].state = 0; continue; }
+      n_alloc++; if (bi / 64 != (bi + count - 1) / 64) n_cross++;
+      for (int j = 0; j < NREG; j++) if (j != i && pregs[j].state == 1 && bi < pregs[j].idx + pregs[j].count && pregs[j].idx < bi + count)
+        FAIL("claims_overlap", "t%d got bits [%zu,+%zu) overlapping the live claim [%zu,+%zu)", tid, (size_t)bi, count, pregs[j].idx, pregs[j].count);
+      pregs[i].idx = bi; pregs[i].count = count; pregs[i].state = 1;
+    } else if (op < 95) {
+      int start = (int)(vs_rnd() % NREG);
+      for (int k = 0; k < NREG; k++) { int i = (start + k) % NREG; if (pregs[i].state == 1) { pregs[i].state = 3; n_free++;
+          if (TRACE) printf("T %d B free %zu %zu\n", tid, pregs[i].idx, pregs[i].count);
+          _mi_bitmap_unclaim_across((mi_bitmap_t)PBM, 3, pregs[i].count, pregs[i].idx);
+          if (TRACE) printf("T %d X free\n", tid);
+          pregs[i].state = 0; break; } }
     } else vs_yield();
   }
 }
@@ -97,14 +142,30 @@ int main(int argc, char** argv) {
   mi_option_set(mi_option_show_errors, 0); mi_option_set(mi_option_verbose, 0);
   mi_option_set(mi_option_purge_delay, (seed % 3 == 0) ? -1 : 0);
   void* warm = mi_malloc(8); mi_free(warm);
+  if (argc > 8 && atoi(argv[8])) {    // private bitmap variant
+    INUSE = PBM; INUSE_FIELDS = 3;
+    if (argc > 7 && atoi(argv[7])) { setvbuf(stdout, NULL, _IOLBF, 0); for (size_t f = 0; f < 3; f++) printf("INIT %zu 0\n", f); TRACE = 1; }
+    vs_init(seed, nth);
+    vs_fn bodies[VS_MAXT]; for (int i = 0; i < nth; i++) bodies[i] = body_bm;
+    vs_run(bodies);
+    TRACE = 0;
+    for (int i = 0; i < NREG; i++) if (pregs[i].state == 1) _mi_bitmap_unclaim_across((mi_bitmap_t)PBM, 3, pregs[i].count, pregs[i].idx);
+    for (int f = 0; f < 3; f++) if (mi_atomic_load_relaxed(&PBM[f]) != 0) { FAIL("blocks_left_reserved", "field %d of the private bitmap is %zx after every claim was released", f, mi_atomic_load_relaxed(&PBM[f])); break; }
+    printf("STAT points %ld\nSTAT claims %ld\nSTAT failed_claims %ld\nSTAT frees %ld\nSTAT cross_word_claims %ld\n", vs_points, n_alloc, n_fail, n_free, n_cross);
+    printf("DONE fails %d\n", nfail); fflush(stdout);
+    return 0;
+  }
   ASIZE = (size_t)ABLOCKS * MI_ARENA_BLOCK_SIZE;
   uint8_t* raw = (uint8_t*)mmap(NULL, ASIZE + MI_SEGMENT_ALIGN, PROT_NONE, MAP_PRIVATE | MAP_ANONYMOUS | MAP_NORESERVE, -1, 0);
   if (raw == MAP_FAILED) { printf("SKIP mmap\nDONE fails 0\n"); return 0; }
   ASTART = (uint8_t*)_mi_align_up((uintptr_t)raw, MI_SEGMENT_ALIGN);
   if (!mi_manage_os_memory_ex(ASTART, ASIZE, false, false, true, -1, true, &AID)) { printf("SKIP manage\nDONE fails 0\n"); return 0; }
+  { mi_arena_t* ar = mi_arena_from_index(mi_arena_id_index(AID)); INUSE = ar->blocks_inuse; INUSE_FIELDS = ar->field_count;
+    if (argc > 7 && atoi(argv[7])) { setvbuf(stdout, NULL, _IOLBF, 0); for (size_t f = 0; f < INUSE_FIELDS; f++) printf("INIT %zu %zx\n", f, mi_atomic_load_relaxed(&ar->blocks_inuse[f])); TRACE = 1; } }
   vs_init(seed, nth);
   vs_fn bodies[VS_MAXT]; for (int i = 0; i < nth; i++) bodies[i] = body;
   vs_run(bodies);
+  TRACE = 0;
   for (int i = 0; i < NREG; i++) if (regs[i].state == 1) { _mi_arena_free(regs[i].p, regs[i].blocks * MI_ARENA_BLOCK_SIZE, 0, regs[i].memid); regs[i].state = 0; }
   // nothing may stay reserved, and the arena can be allocated completely again
   mi_arena_t* arena = mi_arena_from_index(mi_arena_id_index(AID));
